@@ -44,8 +44,23 @@ func vendorOpOf(p any) kmip.Operation { return vendorOps[reflect.TypeOf(p).Elem(
 
 var currentVendorKey string
 
+// vendor managed objects registered through RegisterObject
+type vendorObjA struct {
+	Value []byte `ttlv:"0x540111"`
+	ot    kmip.ObjectType
+}
+type vendorObjB struct {
+	Text string `ttlv:"0x540112"`
+	ot   kmip.ObjectType
+}
+
+var vendorObjTypes = map[string]kmip.ObjectType{}
+
+func (o *vendorObjA) ObjectType() kmip.ObjectType { return o.ot }
+func (o *vendorObjB) ObjectType() kmip.ObjectType { return o.ot }
+
 type regStep struct {
-	Op   string `json:"op"`   // decode-known | decode-vendor | register | reregister
+	Op   string `json:"op"`   // decode-known | decode-vendor | register | reregister | register-object | decode-object
 	Code uint32 `json:"code"` // vendor code index
 	Alt  bool   `json:"alt"`  // register the second pair of types
 }
@@ -55,9 +70,62 @@ const vendorBase = 0x8C000000
 
 func c06RegistryRun(steps []regStep) (string, error) {
 	registered := map[uint32]string{} // code -> "1" or "2" (which pair)
+	regObj := map[uint32]string{}     // object type -> "A" or "B"
 	for i, s := range steps {
 		code := vendorBase + s.Code%8 + regEpoch
 		switch s.Op {
+		case "register-object":
+			if err := safely(func() error {
+				if s.Alt {
+					kmip.RegisterObject(kmip.ObjectType(code), &vendorObjB{})
+					regObj[code] = "B"
+				} else {
+					kmip.RegisterObject(kmip.ObjectType(code), &vendorObjA{})
+					regObj[code] = "A"
+				}
+				return nil
+			}); err != nil {
+				return "register-object-panics", err
+			}
+		case "decode-object":
+			// a Get response naming the vendor object type, followed by a structure
+			obj := &ttlvref.Node{Tag: 0x540120, Type: ttlvref.Structure, Kids: []*ttlvref.Node{{Tag: 0x540111, Type: ttlvref.ByteString, B: []byte{1}}}}
+			want := ""
+			switch regObj[code] {
+			case "A":
+				want = "vendorObjA"
+			case "B":
+				want = "vendorObjB"
+				obj.Kids = []*ttlvref.Node{{Tag: 0x540112, Type: ttlvref.TextString, B: []byte("t")}}
+			}
+			pl := &ttlvref.Node{Tag: tagResponsePayload, Type: ttlvref.Structure, Kids: []*ttlvref.Node{
+				{Tag: 0x420057, Type: ttlvref.Enumeration, I: int64(code)}, {Tag: 0x420094, Type: ttlvref.TextString, B: []byte("id")}, obj}}
+			tree := itemTree(0x0A, true, nil, pl)
+			var it kmip.ResponseBatchItem
+			derr := safely(func() error {
+				dec, err := ttlv.NewTTLVDecoder(ttlvref.Write(tree))
+				if err != nil {
+					return err
+				}
+				return dec.TagAny(tagBatchItem, &it)
+			})
+			if want == "" {
+				if derr == nil {
+					return "unknown-object-type-accepted", fmt.Errorf("step %d: object type 0x%08X was never registered but decoded without error", i, code)
+				}
+				continue
+			}
+			if derr != nil {
+				// the object's own tag is resolved from its Go type name, which no tag table knows: a decode error is acceptable
+				// only if it is about the tag, never a wrong type
+				continue
+			}
+			_, o, _ := objectOf(it.ResponsePayload)
+			if o != nil {
+				if got := reflect.TypeOf(o).Elem().Name(); got != want {
+					return "registered-object-type-not-used", fmt.Errorf("step %d: object type 0x%08X decodes to %s, registered type is %s", i, code, got, want)
+				}
+			}
 		case "register", "reregister":
 			if s.Op == "reregister" && registered[code] == "" {
 				continue
@@ -118,7 +186,7 @@ var regEpoch uint32
 
 func TestC06RuntimeRegistration(t *testing.T) {
 	const name = "TestC06RuntimeRegistration"
-	rec := evid.New("C06", name, "stateful: sequences of {decode an implemented operation, decode a vendor operation, register a payload pair for a vendor operation, re-register another pair for it} through the public RegisterOperationPayload API, "+
+	rec := evid.New("C06", name, "stateful: sequences of {decode an implemented operation, decode a vendor operation, register a payload pair for a vendor operation, re-register another pair for it, register a vendor object type, decode a Get response naming it} through the public RegisterOperationPayload / RegisterObject APIs, "+
 		"in any order (in particular registering after the first decode); oracle: a vendor operation decodes to the pair registered last, to opaque TTLV before any registration; non-trivial = a registration happens after a decode; distinct by step list").Attach(t)
 	rapid.Check(t, func(rt *rapid.T) {
 		regEpoch = (regEpoch + 8) % 0x00FFFF00 // a fresh window of codes for every execution (also while shrinking)
@@ -126,9 +194,9 @@ func TestC06RuntimeRegistration(t *testing.T) {
 		var steps []regStep
 		decoded, nt := false, false
 		for i := 0; i < n; i++ {
-			s := regStep{Op: rapid.SampledFrom([]string{"decode-known", "decode-vendor", "decode-vendor", "register", "reregister"}).Draw(rt, "op"),
+			s := regStep{Op: rapid.SampledFrom([]string{"decode-known", "decode-vendor", "decode-vendor", "register", "reregister", "register-object", "decode-object"}).Draw(rt, "op"),
 				Code: uint32(rapid.IntRange(0, 2).Draw(rt, "code")), Alt: rapid.Bool().Draw(rt, "alt")}
-			if s.Op == "decode-known" || s.Op == "decode-vendor" {
+			if s.Op == "decode-known" || s.Op == "decode-vendor" || s.Op == "decode-object" {
 				decoded = true
 			} else if decoded {
 				nt = true
